@@ -119,7 +119,7 @@ func (x *Exec) Clock() int { return x.clock }
 // Config tunes Run.
 type Config struct {
 	Horizon  int           // max points per execution (default 20000)
-	Watchdog time.Duration // max wall time between two points (default 30s)
+	Watchdog time.Duration // max wall time between two points (default 120s)
 }
 
 // Run executes body as thread 0 under the scheduler, replaying prefix.
@@ -128,7 +128,7 @@ func Run(prefix, expectN []int, cfg Config, body func(x *Exec)) *Result {
 		cfg.Horizon = 20000
 	}
 	if cfg.Watchdog == 0 {
-		cfg.Watchdog = 30 * time.Second
+		cfg.Watchdog = 120 * time.Second
 	}
 	x := &Exec{prefix: prefix, expectN: expectN, res: &Result{RacyAt: -1}, horizon: cfg.Horizon,
 		doneCh: make(chan struct{}), adopted: make(chan struct{}, 16), progress: make(chan struct{}, 1), adoptedObjs: map[interface{}]bool{}}
@@ -216,7 +216,7 @@ func (x *Exec) Adopt(n int) {
 	for i := 0; i < n; i++ {
 		select {
 		case <-x.adopted:
-		case <-time.After(20 * time.Second):
+		case <-time.After(120 * time.Second):
 			panic("sched: adoption of an engine goroutine timed out")
 		}
 	}
